@@ -99,4 +99,101 @@ EXTRA = [
 """, 'C05.h'),
     M('M-C05i-store-no-commit', GPKG, """            cursor.executemany(stmt, records)
             self.db.commit()""", """            cursor.executemany(stmt, records)""", 'C05.i'),
+    # ---------------------------------------------------------------- C08
+    M('M-C08a-fetch-above-lock', 'mapproxy/cache/tile.py', """        main_tile = Tile(meta_tile.main_tile_coord)
+        with self.tile_mgr.lock(main_tile):
+            if not all(self.is_cached(t, dimensions=self.dimensions) for t in meta_tile.tiles if t is not None):
+                meta_tile_image = self._query_sources(query)
+                if not meta_tile_image:""", """        main_tile = Tile(meta_tile.main_tile_coord)
+        meta_tile_image = self._query_sources(query)
+        with self.tile_mgr.lock(main_tile):
+            if not all(self.is_cached(t, dimensions=self.dimensions) for t in meta_tile.tiles if t is not None):
+                if not meta_tile_image:""", 'C08.a'),
+    M('M-C08a-no-recheck-meta', 'mapproxy/cache/tile.py', """        with self.tile_mgr.lock(main_tile):
+            if not all(self.is_cached(t, dimensions=self.dimensions) for t in meta_tile.tiles if t is not None):
+                meta_tile_image = self._query_sources(query)""", """        with self.tile_mgr.lock(main_tile):
+            if True:
+                meta_tile_image = self._query_sources(query)""", 'C08.a'),
+    M('M-C08a-renderd-no-recheck', 'mapproxy/cache/renderd.py', """            if not self.is_cached(tile):
+                self._create_renderd_tile(tile.coord)
+            self.cache.load_tile(tile)""", """            self._create_renderd_tile(tile.coord)
+            self.cache.load_tile(tile)""", 'C08.a'),
+    M('M-C08a-recheck-any', 'mapproxy/cache/tile.py', """        with self.tile_mgr.lock(main_tile):
+            if not all(self.is_cached(t, dimensions=self.dimensions) for t in meta_tile.tiles if t is not None):
+                meta_tile_image = self._query_sources(query)""", """        with self.tile_mgr.lock(main_tile):
+            if not self.is_cached(main_tile, dimensions=self.dimensions):
+                meta_tile_image = self._query_sources(query)""", 'C08.a', 're-check covers only the main tile'),
+    E('E-C08a-swapped-branches', 'mapproxy/cache/renderd.py', """            if not self.is_cached(tile):
+                self._create_renderd_tile(tile.coord)
+            self.cache.load_tile(tile)""", """            if self.is_cached(tile):
+                pass
+            else:
+                self._create_renderd_tile(tile.coord)
+            self.cache.load_tile(tile)""", 'if c: pass else: fetch'),
+    M('M-C08b-lock-requested-tile', 'mapproxy/cache/tile.py', """        tile_size = self.grid.tile_size
+        main_tile = Tile(meta_tile.main_tile_coord)
+        with self.tile_mgr.lock(main_tile):
+            if not all(self.is_cached(t, dimensions=self.dimensions) for t in meta_tile.tiles if t is not None):
+                async_pool""", """        tile_size = self.grid.tile_size
+        main_tile = Tile((id(self) % 7, 0, 0))
+        with self.tile_mgr.lock(main_tile):
+            if not all(self.is_cached(t, dimensions=self.dimensions) for t in meta_tile.tiles if t is not None):
+                async_pool""", 'C08.b', 'lock depends on the creator object, not on the meta tile'),
+    M('M-C08b-main-tile-quotient', 'mapproxy/grid.py', "x0 = x//meta_size[0] * meta_size[0]",
+      "x0 = x//meta_size[0] * (meta_size[0] + 1)", 'C08.b'),
+    M('M-C08b-main-tile-axis', 'mapproxy/grid.py', "y0 = y//meta_size[1] * meta_size[1]",
+      "y0 = y//meta_size[0] * meta_size[0]", 'C08.b|C03.a'),
+    E('E-C08b-bind-coord-first', 'mapproxy/cache/renderd.py', """        main_tile = Tile(meta_tile.main_tile_coord)
+        with self.tile_locker(main_tile):""", """        coord = meta_tile.main_tile_coord
+        main_tile = Tile(coord)
+        with self.tile_locker(main_tile):""", 'local alias'),
+    M('M-C08c-const-cache-id', 'mapproxy/cache/file.py', "self.lock_cache_id = md5.hexdigest()",
+      "self.lock_cache_id = 'file'", 'C08.c'),
+    M('M-C08c-name-without-cache-id', 'mapproxy/cache/base.py',
+      "return os.path.join(self.lock_dir, self.lock_cache_id + '-' +", "return os.path.join(self.lock_dir, 'tile-' +",
+      'C08.c'),
+    M('M-C08d-revert-D7-store', 'mapproxy/cache/compact.py', """    def store_tiles(self, tiles, dimensions=None):
+        tiles_data = []
+        for t in tiles:
+            if t.stored:
+                continue
+            with tile_buffer(t) as buf:
+                data = buf.read()
+            tiles_data.append((t.coord, data))
+
+        with FileLock(self.lock_filename, directory_permissions=self.directory_permissions,
+                      file_permissions=self.file_permissions, remove_on_unlock=True):
+            # _readwrite""", """    def store_tiles(self, tiles, dimensions=None):
+        self._init_index()
+        tiles_data = []
+        for t in tiles:
+            if t.stored:
+                continue
+            with tile_buffer(t) as buf:
+                data = buf.read()
+            tiles_data.append((t.coord, data))
+
+        with FileLock(self.lock_filename, directory_permissions=self.directory_permissions,
+                      file_permissions=self.file_permissions, remove_on_unlock=True):
+            # _readwrite""", 'C08.d', 'revert of fix D7'),
+    M('M-C08d-v1-remove-outside-lock', 'mapproxy/cache/compact.py', """        with FileLock(self.lock_filename, directory_permissions=self.directory_permissions,
+                      file_permissions=self.file_permissions, remove_on_unlock=True):
+            with self.index().readwrite() as idx:
+                x, y = self._rel_tile_coord(tile.coord)
+                idx.remove_tile_offset(x, y)""", """        if True:
+            with self.index().readwrite() as idx:
+                x, y = self._rel_tile_coord(tile.coord)
+                idx.remove_tile_offset(x, y)""", 'C08.d'),
+    E('E-C08d-helper-under-lock', 'mapproxy/cache/compact.py', """            with self._readwrite() as fh:
+                x, y = self._rel_tile_coord(tile.coord)
+                self._update_tile_offset(fh, x, y, 0, 0)
+
+        return True""", """            self._clear_slot(tile)
+
+        return True
+
+    def _clear_slot(self, tile):
+        with self._readwrite() as fh:
+            x, y = self._rel_tile_coord(tile.coord)
+            self._update_tile_offset(fh, x, y, 0, 0)""", 'mutation moved into a private helper whose only call site is under the lock'),
 ]
